@@ -7,7 +7,9 @@ import (
 	"flag"
 	"fmt"
 	"os"
+	"strconv"
 	"strings"
+	"time"
 
 	"verifharness/hx"
 )
@@ -38,9 +40,17 @@ func main() {
 		fmt.Fprintln(os.Stderr, "trace: -out required")
 		os.Exit(2)
 	}
+	wd := 150 * time.Second
 	if cfg.Tier == "thorough" {
 		cfg.Scale *= 20
+		wd = 900 * time.Second
 	}
+	if v := os.Getenv("VERIF_WATCHDOG_S"); v != "" {
+		if n, err := strconv.Atoi(v); err == nil && n > 0 {
+			wd = time.Duration(n) * time.Second
+		}
+	}
+	hx.StartWatchdog(wd)
 	for _, n := range strings.Split(names, ",") {
 		fn, ok := streams[n]
 		if !ok {
